@@ -73,6 +73,17 @@ impl super::Authorizer {
             Some(execution_time).filter(|_| execution_time > Duration::default());
 
         let mut public_key_to_block_id: HashMap<usize, Vec<usize>> = HashMap::new();
+        // the external keys of all the blocks have to be known before the first block is
+        // loaded: a scope can name the key of a later block
+        for (i, block) in world.blocks.iter().enumerate() {
+            if let Some(key) = block.external_key.as_ref() {
+                let key = PublicKey::from_proto(key)?;
+                public_key_to_block_id
+                    .entry(authorizer.symbols.public_keys.insert(&key) as usize)
+                    .or_default()
+                    .push(i);
+            }
+        }
         let mut blocks = Vec::new();
         for (i, block) in world.blocks.iter().enumerate() {
             let token_symbols = if block.external_key.is_none() {
@@ -88,13 +99,6 @@ impl super::Authorizer {
             // snapshot's own symbol table
             if block.external_key.is_some() {
                 block.symbols = token_symbols.clone();
-            }
-
-            if let Some(key) = block.external_key.as_ref() {
-                public_key_to_block_id
-                    .entry(authorizer.symbols.public_keys.insert(key) as usize)
-                    .or_default()
-                    .push(i);
             }
 
             load_and_translate_block(
